@@ -22,7 +22,9 @@ struct Net {
     int add(LweSample *ct, int bit, int depth, int wc, bool triv) { w.push_back({ct, bit, depth, wc, triv}); return (int) w.size() - 1; }
     LweSample *fresh_ct() { return new_gate_bootstrapping_ciphertext(params); }
     int input(int bit) { LweSample *c = fresh_ct(); bootsSymEncrypt(c, bit, sk); return add(c, bit, 0, W_FRESH, false); }
-    int constant(int bit) { LweSample *c = fresh_ct(); bootsCONSTANT(c, bit, ck); return add(c, bit, 0, W_CONST, true); }
+    // a Boolean crosses the API as an int32: any non-zero value is true (masks like K & 4, -1, INT32_MIN)
+    int constant(int bit) { static const int32_t truthy[] = {1, 1, 2, 3, 4, -1, 6, 8, 0x40000000, INT32_MIN, INT32_MAX, 256, -2};
+        LweSample *c = fresh_ct(); bootsCONSTANT(c, bit ? truthy[rng.below(13)] : 0, ck); return add(c, bit, 0, W_CONST, true); }
     int hostile(int bit) {   // admissible but maximally noisy: exactly +-1/32 (or just inside) from +-1/8
         LweSample *c = fresh_ct(); bootsSymEncrypt(c, bit, sk);
         int64_t e = (rng.coin() ? 1 : -1) * (E32 - (int64_t) rng.below(3));
